@@ -66,9 +66,15 @@ fn main() {
             }
             let len = 40 + rng.below(120);
             play_confined(&mut g, &mut rng, &region, len, 0.0);
-            // advance to a late step of the turn if the game allows it
-            for _ in 0..3 {
-                if g.dead || !g.top().is_play_phase() || g.top().current_step() >= 3 {
+            // go on until the repetition rules actually withhold something in the current state (that is
+            // where the history is consulted in earnest), preferably late in the turn
+            for _ in 0..40 {
+                if g.dead || !g.top().is_play_phase() {
+                    break;
+                }
+                let t = g.top().clone();
+                let withheld = guarded(|| t.valid_actions().len() < t.valid_actions_no_rep().len()).unwrap_or(false);
+                if withheld && t.current_step() >= 1 {
                     break;
                 }
                 play_confined(&mut g, &mut rng, &region, 1, 0.0);
